@@ -14,9 +14,10 @@ import (
 )
 
 type C12Case struct {
-	Dst gen.B `json:"dst"`
-	Src gen.B `json:"src"`
-	K   int   `json:"k"`
+	Dst   gen.B `json:"dst"`
+	Src   gen.B `json:"src"`
+	K     int   `json:"k"`
+	Spare int   `json:"spare,omitempty"` // capacity of dst, see sentinelDst
 }
 
 const rcLetters = "aAcCgGtTnN"
@@ -36,6 +37,13 @@ func genC12(t *rapid.T, thorough bool) C12Case {
 		c.Src[pos] = rapid.Byte().Draw(t, "badbyte")
 	}
 	c.Dst = gen.B(rapid.SliceOfN(rapid.Byte(), 0, 9).Draw(t, "dst"))
+	c.Spare = rapid.IntRange(0, 3).Draw(t, "spare")
+	if n > 0 && rapid.IntRange(0, 19).Draw(t, "utf8") == 0 {
+		// a valid multi-byte UTF-8 sequence somewhere (e.g. U+0141, whose low byte is 'A')
+		r := rapid.SampledFrom([]rune{0x141, 0x143, 0x147, 0x154, 0x14e, 0x161, 0x163, 0x167, 0x174, 0x16e, 0x4e4e, 0x1f443, 0xe9, 0x3b1}).Draw(t, "rune")
+		pos := rapid.IntRange(0, n).Draw(t, "runepos")
+		c.Src = append(c.Src[:pos:pos], append(gen.B(string(r)), c.Src[pos:]...)...)
+	}
 	c.K = rapid.OneOf(rapid.IntRange(1, 6), rapid.IntRange(1, max(1, n+2)), rapid.Just(max(1, n))).Draw(t, "k")
 	return c
 }
@@ -72,12 +80,7 @@ func checkC12(c C12Case, o *Obs) error {
 
 	srcCopy := bytes.Clone(src)
 	// dst with spare capacity filled with sentinels, so that a write through the wrong slice shows.
-	buf := make([]byte, len(c.Dst), len(c.Dst)+len(src)+8)
-	copy(buf, c.Dst)
-	spare := buf[len(buf):cap(buf)]
-	for i := range spare {
-		spare[i] = 0xEE
-	}
+	buf := sentinelDst(c.Dst, len(src), c.Spare)
 
 	if !valid {
 		if p := catch(func() { sequtil.ReverseComplement(buf, src) }); p == nil {
@@ -186,6 +189,22 @@ func exhaustiveC12(thorough bool, emit func(C12Case) bool) {
 			}
 		}
 	}
+	// Every two-byte string (includes every valid two-byte UTF-8 sequence), alone and embedded.
+	for a := 0; a < 256; a++ {
+		for b := 0; b < 256; b++ {
+			if !emit(C12Case{Src: gen.B{byte(a), byte(b)}, K: 1, Spare: (a + b) % 4, Dst: gen.B{0, 'x', 0}}) || !emit(C12Case{Src: gen.B{'A', byte(a), byte(b), 'c'}, K: 2}) {
+				return
+			}
+		}
+	}
+	// three- and four-byte UTF-8 sequences whose code point has a nucleotide letter as low byte
+	for _, r := range []rune{0x4e41, 0x4e4e, 0x1f443, 0x1f441, 0x10143, 0x2047, 0x2054, 0xfb61} {
+		for _, ctx := range []string{"", "AC"} {
+			if !emit(C12Case{Src: gen.B(ctx + string(r) + ctx), K: 1}) {
+				return
+			}
+		}
+	}
 	// All sequences up to a length bound over the ten letters, all k in 1..len+1.
 	maxLen := 5
 	if thorough {
@@ -196,9 +215,9 @@ func exhaustiveC12(thorough bool, emit func(C12Case) bool) {
 		for k := 1; k <= len(prefix)+1; k++ {
 			var dst gen.B
 			if k%2 == 0 {
-				dst = gen.B("zz")
+				dst = gen.B("z\x00z")
 			}
-			if !emit(C12Case{Src: bytes.Clone(prefix), K: k, Dst: dst}) {
+			if !emit(C12Case{Src: bytes.Clone(prefix), K: k, Dst: dst, Spare: (k + len(prefix)) % 4}) {
 				return false
 			}
 		}
@@ -217,7 +236,7 @@ func exhaustiveC12(thorough bool, emit func(C12Case) bool) {
 
 func keyC12(c C12Case) []byte {
 	k := make([]byte, 0, len(c.Src)+len(c.Dst)+4)
-	k = append(k, byte(c.K), byte(c.K>>8), byte(len(c.Dst)))
+	k = append(k, byte(c.K), byte(c.K>>8), byte(len(c.Dst)), byte(c.Spare))
 	k = append(k, c.Dst...)
 	k = append(k, 0)
 	return append(k, c.Src...)
